@@ -1,7 +1,7 @@
 """Sidecar contracts for sigpyproc (keyed by file::qualname; loops by source-order ordinal + variable)."""
 from pvc.contract import Registry
 
-MODULES = ["lemmas", "kernels_bits", "bits", "kernels_stream", "kernels_moments", "race", "fileio", "readers", "base", "writer", "base_writers", "readblock", "kernels_roll", "moments", "fold", "folded", "pfits", "stats_filters", "rfi", "sigproc_codec", "fft_lengths", "matched", "zscore"]
+MODULES = ["lemmas", "kernels_bits", "bits", "kernels_stream", "kernels_moments", "race", "fileio", "readers", "base", "writer", "base_writers", "readblock", "kernels_roll", "moments", "fold", "folded", "pfits", "stats_filters", "rfi", "sigproc_codec", "fft_lengths", "matched", "zscore", "dmdelays"]
 
 
 def load_all():
